@@ -25,7 +25,8 @@ RULE = ("exhaustive: every binary image of every shape up to 3x3 plus 2x4, 4x2, 
         "index_lookup with each of the seven tables, skeletonize_loop with random / raster / reverse orders; input "
         "dtypes bool, uint8, int8, uint16, int32, int64, float32, float64 (foreground value 1, 255 or 0.5) and layouts "
         "C, Fortran, strided view, negative strides, read-only; label images int16/32/64, uint8/16/32 with sparse "
-        "numbering, touching labels, no background, split objects; sessions = 4-10 calls of mixed entry points in a "
+        "numbering, labels sharing edges, labels meeting only at corners (4-connected components, checkerboard blocks, "
+        "trominoes with a foreign corner pixel), separated labels, no background, split objects; each label also alone;  sessions = 4-10 calls of mixed entry points in a "
         "FRESH interpreter (lazily built tables, state between calls); all other cases run interleaved in four worker "
         "processes. Non-trivial = at least one pixel removed; distinct by hash of the case")
 TRUSTED = [
@@ -249,6 +250,12 @@ def _corpus():
         cs.append(_mk("thin", big, 5, 5, it=None, lay=lay))
         cs.append(_mk("shrink", big, 5, 5, it=-1, lay=lay))
         cs.append(_mk("skel", big, 5, 5, lay=lay))
+    # labels meeting at a corner only (an L-tromino of label 1 with a pixel of label 2 at its corner), at an edge, apart
+    for lab in ([[0, 0, 0, 0, 0], [0, 1, 0, 0, 0], [0, 1, 1, 0, 0], [0, 0, 0, 2, 0], [0, 0, 0, 0, 0]],
+                [[0, 0, 0, 0, 0], [0, 1, 2, 0, 0], [0, 1, 1, 2, 0], [0, 0, 0, 0, 0], [0, 0, 0, 0, 0]],
+                [[1, 1, 0, 0, 2], [1, 0, 0, 2, 2], [0, 0, 0, 0, 0], [3, 3, 3, 0, 0], [3, 3, 3, 0, 4]],
+                [[1, 1, 0, 2, 2], [1, 1, 0, 2, 2], [0, 0, 3, 0, 0], [4, 4, 0, 5, 5], [4, 4, 0, 5, 5]]):
+        cs.append({"fn": "labels", "h": 5, "w": 5, "lab": lab, "dt": "int64"})
     for h, w in ((0, 0), (0, 3), (3, 0)):
         img = [[] for _ in range(h)]
         cs.append(_mk("thin", img, h, w, it=None))
@@ -331,13 +338,45 @@ def _rand_labels(rng, big, cnt=None):
     img, h, w = _rand_image(rng, big, cnt)
     a = np.array(img, bool).reshape(h, w)
     u = rng.rand()
-    if u < 0.3:       # connected components (4- or 8-connected), randomly renumbered, some numbers absent
+    if u < 0.18:      # 4-CONNECTED components (scipy's default structure) of noise: different labels meet at corners
+                      # only, never along an edge
+        if rng.rand() < 0.7:
+            a = rng.rand(h, w) < rng.choice([0.35, 0.5, 0.6, 0.7])
+        lab, n = ndi.label(a)
+        perm = np.concatenate([[0], rng.permutation(n) + 1 + int(rng.randint(0, 3))])
+        lab = perm[lab]
+        if cnt:
+            cnt("labels:diag-only(4-conn components)")
+    elif u < 0.26:    # blocks on a checkerboard: every contact between labels is a corner contact
+        bs = int(rng.randint(1, 4))
+        ii, jj = np.arange(h)[:, None] // bs, np.arange(w)[None, :] // bs
+        lab = np.where((ii + jj) % 2 == 0, 1 + ii * (w // bs + 1) + jj, 0)
+        if rng.rand() < 0.5:
+            lab = lab * (rng.rand(h, w) < 0.85)
+        if cnt:
+            cnt("labels:checkerboard blocks")
+    elif u < 0.32:    # L-trominoes / small shapes with a foreign pixel at the inner or outer corner
+        lab = np.zeros((h, w), np.int64)
+        k = 1
+        for _ in range(int(rng.randint(1, 5))):
+            if h < 3 or w < 3:
+                break
+            r, c = int(rng.randint(0, h - 2)), int(rng.randint(0, w - 2))
+            if lab[r:r + 3, c:c + 3].any():
+                continue
+            blk = np.array([[k, 0, 0], [k, k, 0], [0, 0, k + 1]]) if rng.rand() < 0.5 else np.array([[k, k, 0], [k, 0, k + 1], [0, 0, 0]])
+            blk = np.rot90(blk, int(rng.randint(0, 4)))
+            lab[r:r + 3, c:c + 3] = blk
+            k += 2
+        if cnt:
+            cnt("labels:corner contacts (trominoes)")
+    elif u < 0.45:    # connected components (4- or 8-connected), randomly renumbered, some numbers absent
         lab, n = ndi.label(a, np.ones((3, 3), bool) if rng.rand() < 0.5 else None)
         perm = np.concatenate([[0], rng.permutation(n) + 1 + int(rng.randint(0, 3))])
         lab = perm[lab]
-    elif u < 0.55:    # noise labels: touching objects everywhere
+    elif u < 0.62:    # noise labels: touching objects everywhere (shared edges)
         lab = a * rng.randint(1, int(rng.randint(2, 6)), (h, w))
-    elif u < 0.7:     # no background at all: every pixel labelled
+    elif u < 0.75:    # no background at all: every pixel labelled
         lab = rng.randint(1, int(rng.randint(2, 5)), (h, w))
         if rng.rand() < 0.5:
             lab = 1 + (np.arange(w)[None, :] * 3 // max(w, 1)) + 3 * (np.arange(h)[:, None] * 2 // max(h, 1))
@@ -392,7 +431,7 @@ def generate(ctx):
                        ("skel_ord", 140, 1400), ("skel", 140, 1400)):
         for _ in range(ctx.n(nq, nt)):
             rnd.append(_rand_case(rng, fn, big, cnt))
-    for _ in range(ctx.n(70, 500)):
+    for _ in range(ctx.n(90, 600)):
         rnd.append(_rand_labels(rng, min(big, 24), cnt))
     for _ in range(ctx.n(14, 70)):
         rnd.append(_long_case(rng, int(rng.choice(ctx.n([120, 200], [300, 900, 900]))), cnt))
@@ -514,8 +553,18 @@ def _impl1(case):
             out = M.skeletonize_labels(lab)
         finally:
             M.skeletonize_loop = orig
+        # "each label separately, without labels influencing each other", literally: erase all other labels, run
+        # skeletonize_labels again; label k's pixels must be the same in both outputs (up to 6 labels per case)
+        ks = np.unique(keep[keep > 0]).tolist()
+        if len(ks) > 6:
+            ks = [ks[int(round(x))] for x in np.linspace(0, len(ks) - 1, 6)]
+        alone = []
+        for k in ks:
+            o1 = M.skeletonize_labels(np.where(keep == k, keep, 0).astype(keep.dtype))
+            alone.append([int(k), _g(np.asarray(o1) == k)])
         return {"out": np.asarray(out).astype(np.int64).tolist(), "input_unchanged": bool((lab == keep).all()),
-                "calls": calls, "dtype": str(np.asarray(out).dtype), "shape": list(np.asarray(out).shape)}
+                "calls": calls, "dtype": str(np.asarray(out).dtype), "shape": list(np.asarray(out).shape),
+                "alone": alone}
     a = _arr(case)
     a0 = np.array(a).copy()
     mask = _mask(case)
@@ -613,7 +662,7 @@ def _cost(c):
     if fn == "session":
         return 1.0 + 0.05 * len(c["calls"])
     if fn == "labels":
-        return 0.12
+        return 0.4
     if fn in ("skel", "skel_ord"):
         return 0.04
     return 0.0006 + 2e-6 * c["h"] * c["w"]
@@ -959,6 +1008,11 @@ def _check_atoms(ctx, atoms):
             for lv in np.unique(lab[lab > 0]).tolist():
                 jobs.append((k, h, w, (lab == lv).astype(int).tolist(), (out == lv).astype(int).tolist(),
                              "label %d" % lv))
+            for lv, g1 in o.get("alone", []):
+                if (out == lv).astype(int).tolist() != g1:
+                    extra[k] = ("label %d is skeletonized differently when the other labels are erased: the labels "
+                                "influence each other (with: %s alone: %s)" % (lv, (out == lv).astype(int).tolist(), g1))
+                    break
             continue
         if c["fn"] == "lookup" and c["t"] == 0:
             continue      # the skeletonize table applied synchronously is outside the property
@@ -1077,6 +1131,8 @@ def search_cases(ctx, rnd):
             cases.append(_rand_case(rng, str(rng.choice(["skel", "skel_ord"])), 30))
         if rng.rand() < 0.05:
             cases.append(_rand_labels(rng, 20))
+    for _ in range(250):
+        cases.append(_rand_labels(rng, 14))
     for _ in range(6):
         cases.append(_session(rng, 14, 8))
     return cases
